@@ -6,6 +6,7 @@ import (
 	"encoding/hex"
 	"fmt"
 	"strings"
+	"unicode"
 
 	"github.com/TimothyStiles/poly/seqhash"
 	"lukechampine.com/blake3"
@@ -322,6 +323,66 @@ func c04units(tier string) []mc.Unit {
 			r.Bound("long", fmt.Sprintf("two sequence families at lengths %v", shLongLengths(tier)))
 		}})
 	}
+	// structured sweep: every length 1..200 and geometrically beyond x the shapes of dnaShapes x all flag combinations
+	for part := 0; part < 8; part++ {
+		part := part
+		lens := sweepLengths(1, tier2(tier, 200, 400), tier2(tier, 20000, 100000))
+		us = append(us, mc.Unit{Name: fmt.Sprintf("sweep/part=%d", part), Weight: 60, Run: func(r *mc.Recorder) {
+			var cnt int64
+			for i, n := range lens {
+				if i%8 != part {
+					continue
+				}
+				shapes := dnaShapes(n)
+				if n > 3000 && len(shapes) > 10 {
+					shapes = append(shapes[:4:4], shapes[len(shapes)-6:]...)
+				}
+				for _, sh := range shapes {
+					for _, f := range shAllFlags {
+						in := sh.s
+						if f.typ == "RNA" {
+							in = toU(in)
+						}
+						h0, err := seqhash.Hash(in, f.typ, f.circ, f.ds)
+						if err != nil {
+							r.Failf("accepted", fmt.Sprintf("%s, %d bases %s", sh.shape, n, f), nil, "accepted", err.Error())
+							continue
+						}
+						variants := map[string]string{"lower case": strings.ToLower(in), "mixed case": strings.ToLower(in[:n/2]) + in[n/2:]}
+						if f.circ {
+							for _, k := range []int{1, 23, n / 2, n - 1, n - 24} {
+								if k > 0 && k < n {
+									variants[fmt.Sprintf("rotation %d", k)] = in[k:] + in[:k]
+								}
+							}
+						}
+						if f.ds {
+							rc := shRC(sh.s)
+							if f.typ == "RNA" {
+								rc = toU(rc)
+							}
+							variants["reverse complement"] = rc
+							if f.circ && n > 3 {
+								variants["rotated reverse complement"] = rc[3:] + rc[:3]
+							}
+						}
+						for what, v := range variants {
+							var h string
+							if p := catch(func() { h, err = seqhash.Hash(v, f.typ, f.circ, f.ds) }); p != "" || err != nil || h != h0 {
+								r.Failf("long-"+strings.Fields(what)[0], fmt.Sprintf("%s, %d bases, %s, %s", sh.shape, n, what, f), nil, h0, fmt.Sprint(h, err, p))
+							}
+							cnt++
+						}
+					}
+				}
+			}
+			r.Eval(cnt)
+			r.AddStates(cnt)
+			r.AddTransitions(cnt)
+			r.AddNontrivial(cnt)
+			r.Bound("sweep", fmt.Sprintf("%d lengths (every length to %d, then +7%% steps to %d) x about 20 shapes x 8 declarations x rotation, strand, case", len(lens), tier2(tier, 200, 400), lens[len(lens)-1]))
+		}})
+	}
 	us = append(us, historyUnit("api-histories", shMenu(), 3))
 	// RNA spelling: Hash(U-spelling, RNA) == Hash(T-spelling, DNA) except the type letter
 	rnaMax := tier2(tier, 7, 9)
@@ -539,6 +600,94 @@ func c05units(tier string) []mc.Unit {
 			r.AddNontrivial(cnt)
 		}})
 	}
+	// structured sweep: the published form on every length 1..200 and geometrically beyond x the shapes of dnaShapes
+	for part := 0; part < 8; part++ {
+		part := part
+		lens := sweepLengths(1, tier2(tier, 200, 400), tier2(tier, 20000, 100000))
+		us = append(us, mc.Unit{Name: fmt.Sprintf("sweep/part=%d", part), Weight: 60, Run: func(r *mc.Recorder) {
+			var cnt int64
+			for i, n := range lens {
+				if i%8 != part {
+					continue
+				}
+				shapes := dnaShapes(n)
+				if n > 3000 && len(shapes) > 10 {
+					shapes = append(shapes[:4:4], shapes[len(shapes)-6:]...)
+				}
+				for _, sh := range shapes {
+					s := sh.s
+					for _, f := range shAllFlags {
+						c := s
+						if f.circ {
+							c = shMinRotFast(s)
+						}
+						if f.ds {
+							o := shRC(s)
+							if f.circ {
+								o = shMinRotFast(o)
+							}
+							if o < c {
+								c = o
+							}
+						}
+						d := blake3.Sum256([]byte(c))
+						want := "v1_" + shTag(f.typ, f.circ, f.ds) + "_" + hex.EncodeToString(d[:])
+						in := s
+						if f.typ == "RNA" {
+							in = toU(s)
+						}
+						var h string
+						var err error
+						if p := catch(func() { h, err = seqhash.Hash(in, f.typ, f.circ, f.ds) }); p != "" || err != nil || h != want {
+							r.Failf("form", fmt.Sprintf("%s, %d bases %s", sh.shape, n, f), nil, want, fmt.Sprint(h, err, p))
+						}
+						cnt++
+					}
+				}
+			}
+			r.Eval(cnt)
+			r.AddStates(cnt)
+			r.AddTransitions(cnt)
+			r.AddNontrivial(cnt)
+			r.Bound("sweep", fmt.Sprintf("%d lengths (every length to %d, then +7%% steps to %d) x about 20 shapes x 8 declarations", len(lens), tier2(tier, 200, 400), lens[len(lens)-1]))
+		}})
+	}
+	// every Unicode code point of the basic multilingual plane (and a few beyond) as a single letter inside an accepted
+	// sequence: rejected unless its upper-case form is a letter of the type's alphabet
+	us = append(us, mc.Unit{Name: "reject/every-rune", Weight: 60, Run: func(r *mc.Recorder) {
+		var cnt int64
+		for _, tc := range []struct{ typ, alpha, base string }{{"DNA", nucAccepted, "ATGCAT"}, {"RNA", nucAccepted, "AUGCAU"}, {"PROTEIN", protAlpha, "MKVLAA"}} {
+			for c := rune(0); c <= 0x2FFFF; c++ {
+				if c == 0x10000 {
+					c = 0x1F600 // beyond the BMP: a window of the supplementary planes
+				}
+				if c > 0x1F6FF && c < 0x2F000 {
+					c = 0x2F000
+				}
+				if c >= 0xD800 && c <= 0xDFFF {
+					continue
+				}
+				wantOK := strings.ContainsRune(tc.alpha, unicode.ToUpper(c))
+				if u := strings.ToUpper(string(c)); len([]rune(u)) == 1 && strings.ContainsRune(tc.alpha, []rune(u)[0]) {
+					wantOK = true // what upper-casing the whole string makes of it (case is irrelevant by C04)
+				} else if len([]rune(u)) != 1 {
+					continue // special-casing to several letters: not a single letter any more
+				}
+				s := tc.base[:3] + string(c) + tc.base[3:]
+				var err error
+				p := catch(func() { _, err = seqhash.Hash(s, tc.typ, false, false) })
+				cnt++
+				if p != "" || (err == nil) != wantOK {
+					r.Failf("reject-letter", fmt.Sprintf("%q (U+%04X) as %s", s, c, tc.typ), nil, fmt.Sprintf("accepted=%v", wantOK), fmt.Sprint("accepted=", err == nil, " ", p))
+				}
+			}
+		}
+		r.Eval(cnt)
+		r.AddStates(cnt)
+		r.AddTransitions(cnt)
+		r.AddNontrivial(cnt)
+		r.Bound("every-rune", "every code point U+0000..U+FFFF and two windows of the supplementary planes, as one letter inside a 6-letter sequence, for DNA, RNA and PROTEIN")
+	}})
 	// across flags and types: same sequence, different declaration => different hash
 	us = append(us, mc.Unit{Name: "cross-flags", Weight: 20, Run: func(r *mc.Recorder) {
 		var cnt int64
